@@ -5,6 +5,7 @@ Proofs/Faults (destinations) and Proofs/FaultsRead (sources).
 -/
 import SfntV.Proofs.Faults
 import SfntV.Proofs.FaultsRead
+import SfntV.Proofs.FaultsParser
 
 namespace SfntV.Props.C18
 open SfntV SfntV.Header SfntV.Faults
@@ -168,6 +169,35 @@ theorem C18_limited (f : Bytes) (k : Nat) (ra : ReaderAt) (hl : Limited f k ra)
 theorem C18_sources (f : Bytes) (k : Nat) :
     Limited f k (memReader (f.take k)) ∧ Limited f k (faultReader f k) :=
   ⟨limited_trunc f k, limited_fault f k⟩
+
+/-! ## the buffered parser (parser/parser.go) on a source that ends at offset `k` -/
+
+open SfntV.Parser SfntV.FaultsParser in
+/-- The parser on a source that delivers `f[0,k)` — in pieces of any sizes (`o`) — and then ends,
+by EOF (file cut at `k`) or by another error (reader failing at `k`), while `Size()` reports the
+complete length: for every history of operations its outputs are those of a cursor over the
+`k`-byte view (`viewRun`).  (`ReadBytes(n)` with `n ≤ 1024`, as documented.) -/
+theorem C18_parser_fault (o : Oracle) (f : Bytes) (k : Nat) (ops : List Op) (hops : ∀ op ∈ ops, op.ok) :
+    faultRun o f.length (initAt f k) ops = viewRun f k 0 ops := by
+  have := faultRun_eq o f k ops hops (initAt f k) (init_inv _) rfl
+  simpa [initAt, P.init, P.cursor] using this
+
+open SfntV.Parser SfntV.FaultsParser in
+/-- Results before the fault are unaffected: an operation all of whose bytes lie below `k`
+(`needEnd f c op ≤ k`) returns exactly what it returns on the complete file, and moves the
+cursor the same way. -/
+theorem C18_parser_unaffected (f : Bytes) (k c : Nat) (op : Op) (h : needEnd f c op ≤ k) :
+    viewStep f k c op = specStep f c op :=
+  viewStep_unaffected f k c op h
+
+open SfntV.Parser SfntV.FaultsParser in
+/-- Any operation whose byte range reaches `k` yields an error — no value, or for the bulk
+`Read(buf)` a count together with the error — and a bulk read never reports fewer bytes than
+requested without that error (a short count `b.length < n` only occurs in the error form). -/
+theorem C18_parser_error (f : Bytes) (k c : Nat) (op : Op) (h : k < needEnd f c op) :
+    isErr (viewStep f k c op).2 = true ∧
+    (∀ n b, op = .read n → (viewStep f k c op).2 = .short b → b.length < n) :=
+  viewStep_error f k c op h
 
 /-! ## facts regenerated from the source on every run -/
 
